@@ -118,4 +118,21 @@ theorem civil_ordinal (y m d : Nat) (h : validDate y m d) : civilOfOrdinal (ordi
   rw [hN, civilOfOrdinal_parts a b c e _ hb hc he (by rw [hLeq]; exact hdoylt), hLeq, hyy]
   exact hms
 
+theorem ordinal_bounds (y m d : Nat) (h : validDate y m d) : 1 ≤ ordinal y m d ∧ ordinal y m d ≤ 3652059 := by
+  obtain ⟨hy1, hy2, hm1, hm12, hd1, hd⟩ := h
+  have hdb := daysBeforeMonth_val y m hm1 hm12
+  have hl := leap_iff y
+  have hdoylt : daysBeforeMonth y m + d ≤ 365 + (if leap y = true then 1 else 0) := by
+    have hm : m = 1 ∨ m = 2 ∨ m = 3 ∨ m = 4 ∨ m = 5 ∨ m = 6 ∨ m = 7 ∨ m = 8 ∨ m = 9 ∨ m = 10 ∨ m = 11 ∨ m = 12 := by omega
+    by_cases hL : leap y = true <;>
+    rcases hm with h | h | h | h | h | h | h | h | h | h | h | h <;> subst h <;>
+      simp [monthLen, hL] at hd hdb ⊢ <;> omega
+  unfold ordinal daysBeforeYear
+  by_cases hL : leap y = true
+  · have := hl.mp hL
+    rw [if_pos hL] at hdoylt
+    omega
+  · rw [if_neg hL] at hdoylt
+    omega
+
 end TD.C14
